@@ -12,7 +12,10 @@ ids=${*:-$(ls "$here/benign")}
 for id in $ids; do
   ev=/tmp/evalbenign-$id
   git -C /repo worktree remove --force "$ev" 2>/dev/null
-  git -C /repo worktree add -q --detach "$ev" HEAD || exit 2
+  # (a set that no longer merges with HEAD because a later repair of 9.2
+  # rewrote the same lines names the commit it still applies to in a file "base")
+  base=HEAD; [ -f "$here/benign/$id/base" ] && base=$(cat "$here/benign/$id/base")
+  git -C /repo worktree add -q --detach "$ev" "$base" || exit 2
   if (cd "$ev" && (git apply "$here/benign/$id/patch.diff" 2>/dev/null || git apply -3 "$here/benign/$id/patch.diff" >/dev/null 2>&1)); then
     prop=${id%%-*}
     out=$(VERIF_REPO="$ev" VERIF_BUDGET_S=$budget ./bin/verif check $prop 2>&1)
